@@ -243,7 +243,7 @@ func genLedgerWith(b ledgerBias) func(r *prng, seed uint64, tier string) *Plan {
 				p.Steps = append(p.Steps, Step{Op: "restart", Node: v, Node2: r.Intn(cfg.Nodes), DelayMS: r.Intn(3000)})
 				continue
 			case r.Chance(b.forbiddenP):
-				kind := []string{"self-sealed", "genesis-issuer", "empty", "orphan"}[r.Intn(4)]
+				kind := []string{"self-sealed", "genesis-issuer", "empty", "orphan", "self-sealed-alias", "genesis-issuer-alias"}[r.Intn(6)]
 				st := Step{Op: "inject", Node: node, Kind: kind, From: r.Intn(cfg.Wallets), To: r.Intn(cfg.Wallets), Cur: uint64(1 + r.Intn(5)), DelayMS: r.Intn(100)}
 				if r.Chance(0.3) {
 					st.K = 1 + r.Intn(cfg.Nodes)
